@@ -621,7 +621,7 @@ class Discharger:
                 continue
             cond = r["cond"]
             if recv["m"] == "as_ref":
-                present = ("self.%s.is_none()=False" % fld) in cond or any(e.startswith("set %s = Some(" % fld) for e in r["effects"])
+                present = ("self.%s=Some" % fld) in cond or any(e.startswith("set %s = Some(" % fld) for e in r["effects"])
             else:
                 ins = [e for e in r["effects"] if e.startswith("insert %s " % fld)]
                 keytxt = None
@@ -634,7 +634,7 @@ class Discharger:
                     if keytxt is None or k == keytxt:
                         present = True
                 if not present and keytxt is not None:
-                    present = ("self.%s.get(%s).is_none()=False" % (fld, keytxt)) in cond or ("(!self.%s.contains_key(%s))=False" % (fld, keytxt)) in cond
+                    present = ("self.%s.get(%s)=Some" % (fld, keytxt)) in cond
             if not present:
                 bad.append("path [%s]: key not known to be present" % cond[:80])
         return (not bad), "ensure-get", "`%s.unwrap()` — on each of the %d paths of %s the entry was inserted on that path or the path condition established its presence%s" % (src(recv)[:50], len(rows), fn, "" if not bad else "; EXCEPT " + "; ".join(bad))
